@@ -5,6 +5,7 @@ import (
 	"go/token"
 	"go/types"
 	"math/big"
+	"os"
 	"strings"
 
 	"golang.org/x/tools/go/ssa"
@@ -97,6 +98,48 @@ func (f *frame) call(x *ssa.Call, cc *ssa.CallCommon, pc *Term, st State) {
 		for i, n := range f.spec.Params {
 			if i < len(f.params) {
 				env.setParam(n, f.params[i])
+			}
+		}
+		// elements of a short slice argument (a variadic pack) as they were when
+		// the call was made: argN_J  (the callee may overwrite the backing array)
+		for n := 0; n < ai; n++ {
+			av, ok := env.vars[fmt.Sprintf("arg%d", n)]
+			if !ok || av.Typ == nil {
+				continue
+			}
+			if _, isSl := av.Typ.Underlying().(*types.Slice); !isSl || av.T == nil {
+				continue
+			}
+			ln, known := f.c.constLen(av.T)
+			if !known {
+				// a variadic pack built at the call: slice of a fresh fixed-size array
+				k := n
+				if cc.IsInvoke() {
+					k = n - 1
+				}
+				if k >= 0 && k < len(cc.Args) {
+					if sl, isS := cc.Args[k].(*ssa.Slice); isS && sl.Low == nil && sl.High == nil {
+						if pt, isP := sl.X.Type().Underlying().(*types.Pointer); isP {
+							if at, isA := pt.Elem().Underlying().(*types.Array); isA {
+								ln, known = at.Len(), true
+							}
+						}
+					}
+				}
+			}
+			if known && ln >= 1 && ln <= 4 {
+				for j := int64(0); j < ln; j++ {
+					if ex, err := parseSExpr(fmt.Sprintf("arg%d[%d]", n, j)); err == nil {
+						func() {
+							defer func() { recover() }()
+							saved := env.st
+							env.st = pre
+							v := env.eval(ex)
+							env.st = saved
+							env.vars[fmt.Sprintf("arg%d_%d", n, j)] = v
+						}()
+					}
+				}
 			}
 		}
 		if rv, ok := f.vals[x]; ok {
@@ -648,6 +691,13 @@ func (f *frame) abstractCall(callee *ssa.Function, cc *ssa.CallCommon, pc *Term,
 		ms = c.modsOfDynamic(f.fn, cc)
 	}
 	c.note("abstract call: " + desc)
+	if os.Getenv("GOVC_DEBUG_MODS") != "" {
+		for _, h := range ms.list() {
+			if strings.HasPrefix(h, "ghost$") {
+				fmt.Fprintf(os.Stderr, "DEBUG-MODS %s: abstract call %s writes %s\n", funcKey(f.fn), desc, h)
+			}
+		}
+	}
 	if ms.all {
 		c.havocAll(st)
 	}
